@@ -529,13 +529,13 @@ func (r *recorder) authenticate(name string, c context.Context) (context.Context
 		switch r.cfg.Auth {
 		case "denied":
 			return answer{Kind: "bool", B: false}
-		case "error":
+		case "error", "errortrue":
 			return answer{Kind: "err"}
 		}
 		return answer{Kind: "bool", B: true}
 	})
 	if a.Kind == "err" {
-		return c, false, errInjected
+		return c, r.cfg.Auth == "errortrue", errInjected // the boolean is to be ignored when an error is returned
 	}
 	return c, a.B, nil
 }
